@@ -26,6 +26,7 @@ type OracleReq struct {
 	Cfg    string `json:"cfg"`
 	Script Script `json:"script,omitempty"`
 	Only   string `json:"only,omitempty"` // one process per (object, lint): cross-check mode
+	Clock  int64  `json:"clock,omitempty"` // simulated instant (fine-grain build only); 0 = the real clock
 }
 
 type OracleResp struct {
@@ -35,6 +36,9 @@ type OracleResp struct {
 }
 
 func (r *OracleReq) key() string {
+	if r.Clock != 0 {
+		return sha([]byte{byte(r.Kind)}, r.DER, []byte(r.Cfg), []byte(mustJSON(r.Script)), []byte(r.Only), []byte(fmt.Sprint("clock=", r.Clock)))
+	}
 	return sha([]byte{byte(r.Kind)}, r.DER, []byte(r.Cfg), []byte(mustJSON(r.Script)), []byte(r.Only))
 }
 
@@ -60,6 +64,12 @@ func computeOracle(req *OracleReq) *OracleResp {
 		return resp
 	}
 	curScript = req.Script
+	if req.Clock != 0 {
+		if !fineGrainBuild {
+			die(2, "oracle: a simulated clock needs the zsim.fg build")
+		}
+		setSimClock(req.Clock, nil)
+	}
 	meta := readMetaTable()
 	names := meta.namesOfKind(req.Kind, false)
 	if req.Only != "" {
@@ -154,17 +164,40 @@ var oracleCounters = counters{}
 
 // ref asks the fresh-process reference. Results are cached on disk per binary.
 func ref(kind int, der []byte, cfg string, script Script, only string) *OracleResp {
-	req := &OracleReq{Kind: kind, DER: der, Cfg: cfg, Script: script, Only: only}
+	return refReq(&OracleReq{Kind: kind, DER: der, Cfg: cfg, Script: script, Only: only})
+}
+
+// refClock is the reference under a simulated clock: this (fine-grain) binary in a
+// fresh process with the clock set to t before anything is linted. Not cached on disk.
+func refClock(kind int, der []byte, cfg string, only string, t int64) *OracleResp {
+	return refReq(&OracleReq{Kind: kind, DER: der, Cfg: cfg, Only: only, Clock: t})
+}
+
+// refExe is the binary that answers reference requests made at the real clock: the worker's
+// own binary, or - for workers of the fine-grain build - the un-instrumented harness, so that
+// the reference is shared with every other batch and cross-checks the instrumentation.
+func refExe(req *OracleReq) (exe, hash string) {
+	if req.Clock == 0 {
+		if e := os.Getenv("ZSIM_REF_EXE"); e != "" {
+			return e, os.Getenv("ZSIM_REF_BINHASH")
+		}
+	}
+	exe, _ = os.Executable()
+	return exe, binHash()
+}
+
+func refReq(req *OracleReq) *OracleResp {
 	k := req.key()
+	exe, hash := refExe(req)
 	oracleMu.Lock()
 	if r, ok := oracleMemo[k]; ok {
 		oracleMu.Unlock()
 		return r
 	}
 	oracleMu.Unlock()
-	dir := filepath.Join(oracleCacheDir(), k[:2])
+	dir := filepath.Join(verifRoot(), "work", "oracle", hash, k[:2])
 	path := filepath.Join(dir, k+".json")
-	if b, err := os.ReadFile(path); err == nil {
+	if b, err := os.ReadFile(path); err == nil && req.Clock == 0 {
 		var r OracleResp
 		if json.Unmarshal(b, &r) == nil && r.Results != nil {
 			oracleCounters.inc("oracle_cache_hit")
@@ -174,10 +207,9 @@ func ref(kind int, der []byte, cfg string, script Script, only string) *OracleRe
 			return &r
 		}
 	}
-	exe, _ := os.Executable()
 	cmd := exec.Command(exe, "oracle")
 	cmd.Stdin = bytes.NewReader([]byte(mustJSON(req)))
-	cmd.Env = append(os.Environ(), "ZSIM_BINHASH="+binHash())
+	cmd.Env = append(os.Environ(), "ZSIM_BINHASH="+hash)
 	var out, errb bytes.Buffer
 	cmd.Stdout, cmd.Stderr = &out, &errb
 	if err := cmd.Run(); err != nil {
@@ -188,10 +220,14 @@ func ref(kind int, der []byte, cfg string, script Script, only string) *OracleRe
 		die(2, "oracle output: %v", err)
 	}
 	oracleCounters.inc("oracle_process")
-	os.MkdirAll(dir, 0o755)
-	tmp := fmt.Sprintf("%s.%d.tmp", path, os.Getpid())
-	if os.WriteFile(tmp, out.Bytes(), 0o644) == nil {
-		os.Rename(tmp, path)
+	if req.Clock == 0 {
+		os.MkdirAll(dir, 0o755)
+		tmp := fmt.Sprintf("%s.%d.tmp", path, os.Getpid())
+		if os.WriteFile(tmp, out.Bytes(), 0o644) == nil {
+			os.Rename(tmp, path)
+		}
+	} else {
+		oracleCounters.inc("oracle_process_simclock")
 	}
 	oracleMu.Lock()
 	oracleMemo[k] = &r
